@@ -1,7 +1,7 @@
 (* C11/Properties.v — the property theorems, nothing else.  Each is closed by [exact lemma]
    and followed by Print Assumptions (captured into the evidence by the check driver). *)
 From Coq Require Import Permutation.
-From Verif Require Import Common.Base Generated.StatusTable C11.Model C11.Diagram C11.Proofs C11.ProofsConc C11.ProofsRepair C11.ProofsTie.
+From Verif Require Import Common.Base Generated.StatusTable C11.Model C11.Diagram C11.Proofs C11.ProofsConc C11.ProofsRepair C11.ProofsTie C11.ProofsRound4.
 From Verif Require Import Generated.C11Ring.
 
 (* The transition table read from the Go source IS the documented diagram (instance obligation,
@@ -167,6 +167,32 @@ Theorem table_covers_enum :
   forallb (fun row => forallb (fun z => existsb (Z.eqb z) all_status_consts) (snd row)) fsm_transitions = true.
 Proof. exact table_covers_enum_l. Qed.
 
+(* ---- round 4 ------------------------------------------------------------------------------------------
+   The shared component hands EVERY report to EVERY attached instance, in the order the reports took
+   effect (one critical section per report): each attached instance k gets exactly the report list es —
+   so the state machines of the instances of one component cannot diverge.  (Reports issued concurrently
+   take effect in some order; harness sharedrace validates on the real hostWrapper that the fan-out of one
+   report is not interleaved with another's.) *)
+Theorem shared_fanout_uniform : forall h es k,
+  NoDup (sources h) -> In k (sources h) ->
+  proj_reports k (sc_run h (map ScReport es)) = map RStatus es.
+Proof. exact shared_fanout_uniform_l. Qed.
+
+(* The InstanceID stored for a node names every pipeline in which the component was configured, whatever
+   the order of the create calls (Graph.createReceiver / createProcessor / createExporter / createConnector):
+   status watchers attribute events to pipelines through it. *)
+Theorem instance_names_every_pipeline : forall os o p,
+  In o os -> In p (ipipes o) -> names (inst_run os) (ikey o) p = true.
+Proof. exact instance_names_every_pipeline_l. Qed.
+
+(* fsm.transition commits the new status BEFORE it notifies, so a watcher that faults during the delivery
+   cannot leave a stale status behind (the model is the same function with or without a fault).  The
+   opposite order is refuted: with one faulting delivery the watchers are handed PermanentError twice and
+   then RecoverableError after PermanentError. *)
+Theorem notify_before_commit_refuted :
+  exists rs, ~ path SNone (fsm_run_notify_first SNone rs) /\ path SNone (events_of (map fst rs)).
+Proof. exact notify_first_refuted_l. Qed.
+
 Print Assumptions table_is_diagram.
 Print Assumptions events_follow_diagram.
 Print Assumptions events_in_words.
@@ -191,3 +217,6 @@ Print Assumptions shared_repaired_delivers_all.
 Print Assumptions ring_cap_is_code.
 Print Assumptions status_enum_is_code.
 Print Assumptions table_covers_enum.
+Print Assumptions shared_fanout_uniform.
+Print Assumptions instance_names_every_pipeline.
+Print Assumptions notify_before_commit_refuted.
